@@ -180,8 +180,27 @@ def _build_gen_tool():
     open(stamp, "w").write(key)
 
 
+# units with a committed snapshot (coq/Snapshot/<unit>.v) that can stand in for the regenerated file when the translator
+# refuses the current source (a loop, a construct it does not know): the snapshot is then a hand-kept model and the
+# checks' digest comparison with the compiled code is what ties it to the tree under test
+SNAPSHOT_FALLBACK = ("GenColor", "GenMap_lorom", "GenMap_hirom", "GenMap_exhirom", "GenMap_sa1rom")
+FALLBACK = {}
+
+
+def fallback_obligations(ck, units):
+    """Record, in the evidence of a check, which of its units run on the committed snapshot instead of a regenerated model."""
+    used = {u: FALLBACK[u] for u in units if u in FALLBACK}
+    for u, why in sorted(used.items()):
+        ck.oblige("translator refused %s on this tree (%s): the committed snapshot coq/Snapshot/%s.v is used as a hand-kept model; "
+                  "it is tied to the compiled code by the digest comparison below instead of by regeneration" % (u, why.splitlines()[0][:160] if why else "", u), True)
+    if used:
+        ck.cov["translator_fallback"] = sorted(used)
+    return used
+
+
 def run_gen(only):
-    """Regenerate the Coq model files from REPO. Returns dict unit -> error text for failed units."""
+    """Regenerate the Coq model files from REPO. Returns dict unit -> error text for failed units (units replaced by
+    their committed snapshot are not errors: see SNAPSHOT_FALLBACK / FALLBACK)."""
     build_gen_tool()
     os.makedirs(GEN, exist_ok=True)
     tmp = os.path.join(WORK, "gen_tmp_" + only.replace(",", "_"))
@@ -192,7 +211,14 @@ def run_gen(only):
     for n in sorted(os.listdir(tmp)):
         p = os.path.join(tmp, n)
         if n.endswith(".err"):
-            errs[n[:-4]] = open(p).read().strip()
+            unit, why = n[:-4], open(p).read().strip()
+            snap = os.path.join(COQ, "Snapshot", unit + ".v")
+            if unit in SNAPSHOT_FALLBACK and os.path.exists(snap):
+                FALLBACK[unit] = why
+                write_if_changed(os.path.join(GEN, unit + ".v"),
+                                 "(* translator refused the current source; committed snapshot used instead *)\n" + open(snap).read())
+            else:
+                errs[unit] = why
         elif n.endswith(".v") or n.endswith(".json"):
             write_if_changed(os.path.join(GEN, n), open(p).read())
     shutil.rmtree(tmp, ignore_errors=True)
